@@ -1,11 +1,30 @@
 """C14 - migrating a legacy database to the SQLite store loses nothing."""
+S = "aw_datastore.storages.sqlite.SqliteStorage."
 PROP = dict(
     id="C14",
     level="other",
-    contract_modules=["contracts.models"],
-    spec_modules=["contracts.models"],
-    functions=[],
+    contract_modules=["contracts.models", "contracts.sqlite", "contracts.migration"],
+    spec_modules=["contracts.sqlite", "contracts.migration"],
+    functions=[dict(fn="aw_datastore.migration.peewee_v2_to_sqlite_v1", rt_skip=True),
+               dict(fn=S + "create_bucket", rt_skip=True),
+               dict(fn=S + "insert_many", rt_skip=True),
+               dict(fn=S + "replace", rt_skip=True),
+               dict(fn=S + "get_metadata", rt_skip=True),
+               dict(fn=S + "conditional_commit", rt_skip=True),
+               dict(fn=S + "commit", rt_skip=True)],
+    timeout_s=20,
+    trusted=["T-PEEWEE: PeeweeStorage.__init__/buckets/get_events are assumed contracts (the listing is a dict of well-formed metadata dicts, "
+             "the events are fresh objects); the legacy database is observed only through these two calls"],
     extra=[lambda run: run.storage_mode("c14", runs=(8 if run.tier == "quick" else 80), what="legacy peewee v2 databases (random buckets with data dicts, unicode ids, events carrying ids) migrated by creating the default sqlite store beside them, normal and testing profile", backends=["sqlite"])],
-    technique="run-time check of the real code (bounded); contract-based proof is layered on top where built",
-    explanation="bounded: random legacy peewee v2 databases (1-3 buckets with unicode ids, optional names and nested data dicts, 0-6 events each inserted singly or in bulk so that they carry ids) are created in a temporary data directory in the normal and the testing profile; the default sqlite store is then created beside them, which triggers the migration; every bucket must be present with the same metadata and every event with the same instant, duration and data, none dropped or duplicated, and the legacy store must still hold what it held (its file bytes are compared too and reported).",
+    technique="run-time check of the real code (bounded); with the migration function proved against the contracts of the sqlite methods and assumed contracts of the peewee reads",
+    explanation="deductive: peewee_v2_to_sqlite_v1 is proved to leave, for every bucket in the legacy listing, a bucket row with exactly the listed metadata (type, client, hostname, created, name, data) and, for every event the legacy store returns for that bucket, a row of that bucket holding the event's encoding - by a loop invariant over the listing, against the discharged contracts of SqliteStorage.create_bucket / insert_many and the ASSUMED contracts of the peewee reads (T-PEEWEE). That ids are dropped before insert_many (so that no event is treated as an update of a missing one) is what makes the invariant provable: the defect repaired in cec4434 is a failing obligation again when reverted. " 
+                "bounded: random legacy peewee v2 databases (1-3 buckets with unicode ids, optional names and nested data dicts, 0-6 events each inserted singly or in bulk so that they carry ids) are created in a temporary data directory in the normal and the testing profile; the default sqlite store is then created beside them, which triggers the migration; every bucket must be present with the same metadata and every event with the same instant, duration and data, none dropped or duplicated, and the legacy store must still hold what it held (its file bytes are compared too and reported).",
 )
+
+F = "/repo/aw_datastore/migration.py"
+MUTANTS = [
+    (F, "        for event in bucket_events:\n            event.id = None\n", "", True),                                   # ids kept: events treated as updates of rows that do not exist (cec4434 reverted)
+    (F, '            bucket["name"],\n            bucket["data"],\n', '            bucket["name"],\n', True),            # the bucket data table is dropped (cec4434 reverted)
+    (F, '            bucket["hostname"],\n            bucket["created"],', '            bucket["client"],\n            bucket["created"],', True),   # hostname replaced by client
+    (F, "        bucket_events = pw_db.get_events(bucket_id, -1)", "        bucket_events = pw_db.get_events(bucket_id, -1)[1:]", True),    # the newest event of each bucket is dropped
+]
